@@ -147,6 +147,10 @@ class SLock:
         return True
     def release(self):
         self.owner = None
+        if getattr(self.S, 'release_points', False):
+            # the statement after a critical section is not atomic with it: another thread may run right after the release
+            # (opt-in per harness: the decision lists of recorded schedules count the schedule points)
+            self.S.point('rel.done')
     def locked(self):
         return self.owner is not None
     def __enter__(self):
